@@ -52,18 +52,17 @@ def opPipelineRow (j : Json) : R Json := do
   let rules ← Core.rulesOf j
   let cfg : Config := ⟨rules, Generated.banList.map str, ← natF j "threshold"⟩
   let input := str (← strF j "input")
-  let r0 : Row := { input := input, reaction := input }
-  let r1 := validate O .input true false none r0
-  let r2 := rbStage O cfg r1
-  let r3 := validate O .rule false true none r2
-  let r4 := searchStage O r3
-  let r5 := (imputeStage O r4).1
-  let r6 := validate O .mcs true false none r5
-  let r7 := postStage O r6
-  let r8 := rbStage O cfg r7
-  let r9 := validate O .mcs true true (some finalMsg) r8
-  let r10 := revertStage r9
-  let r11 := confStage O cfg.threshold r10
+  let r1 := pc1 O input
+  let r2 := pc2 O cfg input
+  let r3 := pc3 O cfg input
+  let r4 := pc4 O cfg input
+  let r5 := pc5 O cfg input
+  let r6 := pc6 O cfg input
+  let r7 := pc7 O cfg input
+  let r8 := pc8 O cfg input
+  let r9 := pc9 O cfg input
+  let r10 := preConf O cfg input
+  let r11 := runRow O cfg input
   return Json.mkObj [
     ("stages", Json.arr #[rowJ r1, rowJ r2, rowJ r3, rowJ r4, rowJ r5, rowJ r6, rowJ r7, rowJ r8, rowJ r9, rowJ r10,
       rowJ r11]),
